@@ -6,7 +6,9 @@ package shamir
 //vx:bodies crypto/subtle
 //vx:redirect crypto/rand.Read vxRandRead
 //vx:redirect crypto/rand.Int vxRandInt
+//vx:redirect github.com/openbao/openbao/sdk/v2/helper/shamir.shuffledXCoordinates vxXCoords
 //vx:unwind 300
+//vx:timelimit quick=200 thorough=3600
 //vx:param assocA quick=15 thorough=255
 //vx:param xmax2 quick=40 thorough=255
 //vx:param xmax3 quick=7 thorough=24
@@ -29,10 +31,23 @@ func vxRandRead(b []byte) (int, error) {
 		b[i] = vxByte("rand")
 	}
 	vxRandLast = append([]byte(nil), b...)
+	vxTape = append(vxTape, b...)
 	return len(b), nil
 }
 
 var vxJ []int64
+
+// x-coordinates for the Split-level entries: the identity permutation (that shuffledXCoordinates yields SOME
+// permutation of 1..255 is decided by VxShuffleStep; which one does not matter to the obligations below)
+func vxXCoords() ([]uint8, error) {
+	xs := make([]uint8, 255)
+	for i := range xs {
+		xs[i] = uint8(i + 1)
+	}
+	return xs, nil
+}
+
+var vxTape []byte // every random byte handed out, in order
 
 func vxRandInt(r io.Reader, max *big.Int) (*big.Int, error) {
 	// never executed symbolically with a real big.Int: shuffledXCoordinates is checked by the inductive step below
@@ -287,4 +302,41 @@ func VxCombineShapes() {
 		vxReach("combine: good shape")
 		vxAssert("secret is one byte shorter than a share", len(got) == lens[0]-1)
 	}
+}
+
+
+// Split as a whole, threshold 3, two-byte secret: the shares of any two parties (fewer than the threshold) are, for
+// EVERY secret, an injective function of the random bytes Split drew - hence a bijection onto all 256^4 values, hence
+// distributed identically for every secret, jointly over both bytes. (Per-byte independence alone, VxIndependence3,
+// does not exclude coefficients shared between the polynomials of different secret bytes.)
+func VxSplitSubThresholdIndependence() {
+	secret := []byte{vxByte("s0"), vxByte("s1")}
+	vxTape = nil
+	a, err := Split(secret, 3, 3)
+	vxAssert("split ok", err == nil && len(a) == 3 && len(a[0]) == 3)
+	ta := vxTape
+	vxTape = nil
+	b, err2 := Split(secret, 3, 3)
+	vxAssert("second split ok", err2 == nil)
+	tb := vxTape
+	vxAssert("split draws (threshold-1) random bytes per secret byte", len(ta) == 4 && len(tb) == 4)
+	pa, pb := vxChoose("first party", 3), vxChoose("second party", 3)
+	vxAssume(pa < pb)
+	same := a[pa][0] == b[pa][0] && a[pa][1] == b[pa][1] && a[pb][0] == b[pb][0] && a[pb][1] == b[pb][1]
+	vxAssume(same)
+	vxReach("split: two parties see the same shares in both runs")
+	vxAssert("t=3, 2-byte secret: two parties' shares determine all four random coefficients (joint bijection for every secret)", ta[0] == tb[0] && ta[1] == tb[1] && ta[2] == tb[2] && ta[3] == tb[3])
+	vxAssert("shares carry their x-coordinate", a[pa][2] == uint8(pa+1) && a[pb][2] == uint8(pb+1))
+}
+
+// Split + Combine end to end for a 2-byte secret, threshold 2 of 3: every pair of shares reconstructs the secret
+func VxSplitCombine() {
+	secret := []byte{vxByte("s0"), vxByte("s1")}
+	out, err := Split(secret, 3, 2)
+	vxAssert("split ok", err == nil && len(out) == 3)
+	i, j := vxChoose("first share", 3), vxChoose("second share", 3)
+	vxAssume(i != j)
+	got, cerr := Combine([][]byte{out[i], out[j]})
+	vxReach("split-combine")
+	vxAssert("any two of three shares reconstruct the two-byte secret", cerr == nil && len(got) == 2 && got[0] == secret[0] && got[1] == secret[1])
 }
